@@ -237,7 +237,8 @@ class SystemClock(Clock, metaclass=MetaSystemClock):
                         if isinstance(delta, (int, float))\
                         and not isinstance(delta, bool):
                             time = sched_time + delta
-                            cls._sched_add(time, task)
+                            if time != float('inf'):  # As in sched.
+                                cls._sched_add(time, task)
                     except stm.StopStream:
                         pass
                     except Exception:
@@ -326,7 +327,8 @@ class Scheduler():
             _libsc3.main._in_awake_call = True
             delta = item.__awake__(self._clock)
             if isinstance(delta, (int, float)) and not isinstance(delta, bool):
-                self._sched_add(delta, item)
+                if delta != float('inf'):  # As in sched.
+                    self._sched_add(delta, item)
         except stm.StopStream:
             pass
         except Exception:
@@ -872,7 +874,8 @@ class TempoClock(Clock, metaclass=MetaTempoClock):
                         if isinstance(delta, (int, float))\
                         and not isinstance(delta, bool):
                             time = self._beats + delta
-                            self._sched_add(time, task)
+                            if time != float('inf'):  # As in sched.
+                                self._sched_add(time, task)
                     except stm.StopStream:
                         pass
                     except Exception:
